@@ -305,6 +305,7 @@ class Runner:
         self._cur_obs = np.asarray(plan["world"]["obs"])
         mdp = RefMDP(self.kind, self.comps, plan["world"], time_limit=int(kn["time_limit"]) if self.has_tl else None)
         self._term_table = [bool(x) for x in plan["world"]["term"]]
+        self._mdp = mdp
         gamma, alpha = float(kn["gamma"]), float(kn["alpha"])
         faults = {f["at_op"]: f for f in plan.get("faults", [])}
         state = None
@@ -486,6 +487,15 @@ class Runner:
             b = bufs[i]
             for idx in range(min(pos, cap)):
                 s2_ = int(b["next_ids"][idx])
+                # the TRUE successor: if the stored successor observation is not a legal successor of (s, executed action)
+                # and the legal successor is unique, the reference bootstraps from the true one (C07 is about V'(s') of the
+                # state the environment actually reached, not of whatever observation the collector stored)
+                s_ = int(b["obs_ids"][idx])
+                if 0 <= s_ < self._mdp.NS:
+                    legal = self._mdp.successors(s_, self._mdp.clip(b["actions"][idx]))
+                    if s2_ not in legal and len(legal) == 1:
+                        res.probes["td_true_successor_differs_from_stored"] += 1
+                        s2_ = legal[0]
                 rows.append({"s": int(b["obs_ids"][idx]), "a": b["actions"][idx], "r": float(b["rewards"][idx]), "s2": s2_,
                              "done": bool(b["dones"][idx]), "timeout": bool(b["timeouts"][idx]),
                              # TRUE termination of this transition as scheduled by the simulator (not what the collector stored)
